@@ -217,6 +217,79 @@ Section S.
         apply (Hmax k' rv'); auto. apply (Permutation_in _ (Permutation_sym (sort_perm _))); auto. }
     destruct Hfl as [l0 E]. rewrite E, map_app, rev_app_distr. reflexivity.
   Qed.
+
+  (* ---- the oracle of Spec.v accepts every run of the repaired model, sorted or not ---- *)
+  Variable veqb : V -> V -> bool.
+  Hypothesis veqb_refl : forall v, veqb v v = true.
+  Notation ok_err' := (ok_err keqb lower is_none known parse srcs src_local).
+  Notation ok_value' := (ok_value keqb lower is_none known parse srcs src_local veqb).
+  Notation allowed' := (allowed keqb lower is_none parse srcs src_local).
+  Notation mentioned' := (mentioned lower known).
+
+  Lemma existsb_same_elems : forall A (f : A -> bool) l l', (forall x, In x l <-> In x l') -> existsb f l = existsb f l'.
+  Proof.
+    intros A f l l' H. apply eq_iff_eq_true. rewrite !existsb_exists.
+    split; intros (x & Hx & Hf); exists x; split; auto; now apply H.
+  Qed.
+  Lemma forallb_same_elems : forall A (f : A -> bool) l l', (forall x, In x l <-> In x l') -> forallb f l = forallb f l'.
+  Proof.
+    intros A f l l' H. apply eq_iff_eq_true. rewrite !forallb_forall.
+    split; intros Hf x Hx; apply Hf; now apply H.
+  Qed.
+
+  Lemma mentioned_sortcfg : forall c m, In m (mentioned' (sortcfg c)) <-> In m (mentioned' c).
+  Proof.
+    intros c m. unfold mentioned, sortcfg. rewrite !in_flat_map. split.
+    - intros (sl & Hsl & H). apply in_map_iff in Hsl. destruct Hsl as ([s l] & <- & Hin). exists (s, l). split; auto.
+      simpl in *. rewrite in_flat_map in *. destruct H as (kv & Hkv & H). exists kv. split; auto.
+      apply (Permutation_in _ (Permutation_sym (sort_perm l))); auto.
+    - intros ([s l] & Hin & H). exists (s, sort' l). split; [apply in_map_iff; exists (s, l); auto|].
+      simpl in *. rewrite in_flat_map in *. destruct H as (kv & Hkv & H). exists kv. split; auto.
+      apply (Permutation_in _ (sort_perm l)); auto.
+  Qed.
+
+  Lemma allowed_sortcfg : forall c (m : pmeta K V) o, In o (allowed' (sortcfg c) m) <-> In o (allowed' c m).
+  Proof.
+    intros c m o. unfold allowed. rewrite deciding_sortcfg. destruct (deciding' c m) as [s|]; [|tauto].
+    pose proof (Permutation_map (value_of is_none parse m) (setters_sortcfg_perm c m s)) as Hp.
+    split; intros H; [apply (Permutation_in _ (Permutation_sym Hp))|apply (Permutation_in _ Hp)]; auto.
+  Qed.
+
+  Lemma existsb_ext' : forall A (f g : A -> bool) l, (forall x, f x = g x) -> existsb f l = existsb g l.
+  Proof. induction l as [|a l IH]; intros H; simpl; auto. now rewrite H, IH. Qed.
+  Lemma forallb_ext' : forall A (f g : A -> bool) l, (forall x, f x = g x) -> forallb f l = forallb g l.
+  Proof. induction l as [|a l IH]; intros H; simpl; auto. now rewrite H, IH. Qed.
+
+  Lemma ok_err_sortcfg : forall c e, ok_err' (sortcfg c) e = ok_err' c e.
+  Proof.
+    intros c e. unfold ok_err. destruct e.
+    - rewrite (existsb_same_elems _ _ _ _ (mentioned_sortcfg c)). apply existsb_ext'.
+      intros m. apply existsb_same_elems. apply allowed_sortcfg.
+    - rewrite (forallb_same_elems _ _ _ _ (mentioned_sortcfg c)). apply forallb_ext'.
+      intros m. apply existsb_same_elems. apply allowed_sortcfg.
+  Qed.
+
+  Lemma ok_value_sortcfg : forall c n v, ok_value' (sortcfg c) n v = ok_value' c n v.
+  Proof.
+    intros c n v. unfold ok_value. destruct (known (lower n)) as [m|]; auto.
+    apply existsb_same_elems. apply allowed_sortcfg.
+  Qed.
+
+  (* MODEL MEETS SPEC: for every configuration, in both key-order variants, the repaired model's error outcome and every
+     parameter value it computes are accepted by the boolean oracle of Spec.v (the one applied to the implementation). *)
+  Theorem model_meets_spec : forall sorted (c : cfg K R),
+    ok_err' c (res_err (resolve' true sorted c)) = true
+    /\ forall st, resolve' true sorted c = Some st ->
+         forall lk m, known lk = Some m -> ok_value' c (pm_name m) (effective keqb st m) = true.
+  Proof.
+    intros [|] c.
+    - rewrite resolve_sorted_as_unsorted.
+      destruct (model_meets_spec_unsorted K R V keqb lower is_none known parse src_local kleb srcs keqb_eq known_name
+                  srcs_desc srcs_pos veqb veqb_refl (sortcfg c)) as [H1 H2].
+      split; [now rewrite <- ok_err_sortcfg|]. intros st Hr lk m Hk. rewrite <- ok_value_sortcfg. eauto.
+    - exact (model_meets_spec_unsorted K R V keqb lower is_none known parse src_local kleb srcs keqb_eq known_name
+               srcs_desc srcs_pos veqb veqb_refl c).
+  Qed.
 End S.
 
 (* ---- Go's string order on byte strings is a total order ---- *)
